@@ -20,7 +20,7 @@ EXTENDS Integers, FiniteSets, Sequences, TLC, Json
 CONSTANTS
   ExSeq,        \* sequence of extractor names in dispatch order, e.g. <<"e1","e2">>
   MaxNodes,     \* max number of present tree nodes
-  FileKinds,    \* kinds offered to non-.gitignore file slots: subset of {"file","big","at","link","special"}
+  FileKinds,    \* kinds offered to non-.gitignore file slots: subset of {"file","big","at","link","linkbig","special"}
   UseList, UseRe, UseGlob,  \* BOOLEAN: the skip-list / skip-regex / skip-glob options may be set
   UseGit,       \* BOOLEAN: .gitignore files may exist and UseGitignore may be on
   MaxPaths,     \* 0: whole-tree scans only; n: up to n explicitly requested paths
@@ -56,7 +56,7 @@ Under(s, d) == d = 0 \/ d \in Anc(s)
 
 Atoms == [t : {"name", "anch", "dironly"}, n : {"f", "b"}]
 SizeLimit == 5
-SizeOf(k) == CASE k = "big" -> 6 [] k = "at" -> 5 [] OTHER -> 2
+SizeOf(k) == CASE k \in {"big", "linkbig"} -> 6 [] k = "at" -> 5 [] OTHER -> 2     \* a symlink has the size of its target
 \* scan roots hold the same tree, except that in even-numbered roots small and oversize regular files swap sizes
 \* (so that state leaking from one root into the next is observable)
 SizeIn(rt, k) == IF rt % 2 = 0 /\ k = "big" THEN 2 ELSE IF rt % 2 = 0 /\ k = "file" THEN 6 ELSE SizeOf(k)
@@ -110,7 +110,7 @@ AtomMatch(at, rel, isDir) ==
 GiAtoms(d) == IF GiOf(d) # 0 /\ tree[GiOf(d)] = "file" THEN gic[GiOf(d)] ELSE {}
 GitIgnored(s, isDir) == cfg.useGit /\ \E d \in ({0} \cup Anc(s)) : \E at \in GiAtoms(d) : AtomMatch(at, RelNames(s, d), isDir)
 RuleSkipped(d) == d \in cfg.skipList \/ d \in cfg.reSkip \/ d \in cfg.globSkip \/ GitIgnored(d, TRUE)
-Wanted(s) == tree[s] \in {"file", "big", "at"} \/ (tree[s] = "link" /\ cfg.readLinks)
+Wanted(s) == tree[s] \in {"file", "big", "at"} \/ (tree[s] \in {"link", "linkbig"} /\ cfg.readLinks)
 InSize(rt, s) == ~cfg.limit \/ SizeIn(rt, tree[s]) <= SizeLimit
 \* s is reached by a walk that starts at directory r (0 = the scan root) and is a file some extractor may get
 ReachedFrom(s, r) == /\ Under(s, r)
@@ -177,7 +177,7 @@ ChooseCfg ==
         ps \in PathChoices,
         isub \in BOOLEAN,
         lim \in (IF UseLimit THEN BOOLEAN ELSE {FALSE}),
-        rl \in (IF "link" \in FileKinds THEN BOOLEAN ELSE {FALSE}),
+        rl \in (IF FileKinds \cap {"link", "linkbig"} # {} THEN BOOLEAN ELSE {FALSE}),
         pm \in Perms, mi \in InodeLimits, ft \in Fatal, nr \in Roots,
         fs \in UpTo({x \in FaultSites : x.op \in FaultOps}, MaxFaults),
         ck \in CancelKinds, cn \in 1..3 :
